@@ -37,7 +37,7 @@ TRUSTED = [
 ]
 ASSUMPTIONS = ['only the C / C.utf8 / POSIX locales are installed in the sandbox; other LC_TIME locales could not be exercised']
 RULE = ('instants: 0, 2^31 +-1, 253402300799, every month/year boundary +-1s for sampled years, leap days (incl. 2000, 2100), DST transition instants of the six zones for sampled years +-1s/+-1h, random; '
-	'each in the three textual forms; every case is run under TZ in {UTC, Europe/Berlin, America/New_York, Asia/Kolkata, Australia/Lord_Howe, Pacific/Apia} x LC_TIME in {C, C.utf8}; '
+	'each in the three textual forms; every case is run under TZ in {UTC, Europe/Berlin, America/New_York, Asia/Kolkata, Australia/Lord_Howe, Pacific/Apia} x LC_TIME in {C, C.utf8, and a private non-English locale built from C.utf8 with other day and month names (activated through LOCPATH)}; also as the value of the three date-carrying header fields and handed over as aware / naive datetime objects; '
 	'non-trivial = all configurations agree with the model on compose and on the three parses; distinct by instant')
 
 ZONES = ['UTC', 'Europe/Berlin', 'America/New_York', 'Asia/Kolkata', 'Australia/Lord_Howe', 'Pacific/Apia']
@@ -118,11 +118,56 @@ def search(rng, res):
 def requests(case):
 	if case[0] == 't':
 		imf, r850, asc, year = forms(case[1])
-		return ['c %d' % case[1], 'p %s' % imf.hex(), 'p %s' % r850.hex(), 'p %s' % asc.hex(), 'h %s' % imf.hex(), 'h %s' % r850.hex(), 'h %s' % asc.hex()]
+		return ['c %d' % case[1], 'p %s' % imf.hex(), 'p %s' % r850.hex(), 'p %s' % asc.hex(), 'h %s' % imf.hex(), 'h %s' % r850.hex(), 'h %s' % asc.hex(), 'a %d' % case[1]]
 	if case[0] == 'cmp':
 		imf, r850, asc, year = forms(case[2])
 		return ['cmp %d %d %s %s %s' % (case[1], case[2], imf.hex(), r850.hex() if 1970 <= year <= 2068 else '-', asc.hex())]
 	return ['p %s' % case[1].hex()] if case[1] else ['p 00']
+
+
+_private = {}
+
+
+def private_locale():
+	"""a non-English LC_TIME locale for machines that have only C/POSIX: a copy of C.utf8 whose compiled LC_TIME has the day and
+	month names replaced by other names of the same length (so the binary layout stays valid); activated through LOCPATH.
+	-> (directory, name) or None"""
+	if 'v' in _private:
+		return _private['v']
+	_private['v'] = None
+	import atexit, shutil, tempfile
+	src = None
+	for cand in ('/usr/lib/locale/C.utf8', '/usr/lib/locale/C.UTF-8', '/usr/lib64/locale/C.utf8'):
+		if os.path.isfile(os.path.join(cand, 'LC_TIME')):
+			src = cand
+			break
+	if src is None:
+		return None
+	base = tempfile.mkdtemp(prefix='c15-locale-', dir=os.environ.get('VERIF_SCRATCH') or None)
+	atexit.register(shutil.rmtree, base, True)
+	dst = os.path.join(base, 'xx_XX.utf8')
+	shutil.copytree(src, dst)
+	path = os.path.join(dst, 'LC_TIME')
+	data = open(path, 'rb').read()
+	# narrow and wide (UTF-32, what wcsftime and so Python's time.strftime read) strings; whole NUL-terminated names only
+	for old, new in (('Monday', 'Montag'), ('Tuesday', 'Dienstg'), ('Wednesday', 'Mittwochs'), ('Thursday', 'Donnerst'), ('Friday', 'Freitg'), ('Saturday', 'Samstags'), ('Sunday', 'Sonntg'),
+			('Mon', 'Mo.'), ('Tue', 'Die'), ('Wed', 'Mit'), ('Thu', 'Don'), ('Fri', 'Fre'), ('Sat', 'Sam'), ('Sun', 'Son'),
+			('January', 'Januars'), ('February', 'Februars'), ('March', 'Maerz'), ('October', 'Oktober'), ('December', 'Dezember'),
+			('Jan', 'Jae'), ('Mar', 'Mrz'), ('May', 'Mai'), ('Oct', 'Okt'), ('Dec', 'Dez')):
+		assert len(old) == len(new)
+		data = data.replace(old.encode() + b'\0', new.encode() + b'\0')
+		data = data.replace(old.encode('utf-32-le') + b'\0\0\0\0', new.encode('utf-32-le') + b'\0\0\0\0')
+	open(path, 'wb').write(data)
+	# usable?  (a child process, as the workers are)
+	env = dict(os.environ, LOCPATH=base, LC_TIME='xx_XX.utf8')
+	env.pop('LC_ALL', None)
+	try:
+		out = subprocess.run([sys.executable, '-c', "import locale, calendar; locale.setlocale(locale.LC_TIME, ''); print(calendar.day_abbr[1], calendar.month_abbr[3])"], env=env, stdout=subprocess.PIPE, stderr=subprocess.DEVNULL, timeout=60).stdout.decode('utf-8', 'replace').split()
+	except Exception:
+		out = []
+	if out == ['Die', 'Mrz']:
+		_private['v'] = (base, 'xx_XX.utf8')
+	return _private['v']
 
 
 def prepare(batch, tier='quick'):
@@ -134,10 +179,13 @@ def prepare(batch, tier='quick'):
 		lines.extend(r)
 	data = ('\n'.join(lines) + '\n').encode()
 	procs = []
+	priv = private_locale()
 	for tz in ZONES:
-		for lc in LOCALES:
+		for lc in LOCALES + ([priv[1]] if priv and tz in ('UTC', 'Europe/Berlin') else []):
 			env = dict(os.environ, TZ=tz, LC_TIME=lc, LC_ALL='', HTTOOP_REPO=core.REPO, PYTHONDONTWRITEBYTECODE='1')
 			env.pop('LC_ALL', None)
+			if priv and lc == priv[1]:
+				env['LOCPATH'] = priv[0]
 			p = subprocess.Popen([sys.executable, os.path.join(core.VERIF, 'harness', 'date_worker.py')], stdin=subprocess.PIPE, stdout=subprocess.PIPE, env=env)
 			procs.append(((tz, lc), p))
 	outs = {}
@@ -198,6 +246,9 @@ def oracle(case):
 				continue
 			if base[i] != ('%d' % t + ' ') * 2 + '%d' % t:
 				bad.append('%s as a header field value (Last-Modified, If-Modified-Since, If-Unmodified-Since) gives %s' % (form, base[i]))
+		# the instant handed over as datetime objects (aware with six offsets, naive UTC)
+		if year <= 9998 and base[7] != ' '.join(['%s:%d:1' % (imf.hex(), t)] * 7):
+			bad.append('Date(datetime) for the instant, aware with offsets 0/+2h/-5:30/+12:45/+14h/-12h and naive UTC, gives (text:instant:equal) %s' % base[7])
 		if bad:
 			return {'what': '; '.join(bad), 'instant': t, 'finding': None}
 	if case[0] == 'cmp':
